@@ -165,7 +165,7 @@ func solveOne(o *Obligation, cfg *SolveConfig) {
 	launch(solvers[0])
 	pending := 1
 	launchedAll := false
-	stagger := time.After(1500 * time.Millisecond)
+	stagger := time.After(4 * time.Second)
 	var answers []answer
 	var definite []answer
 	for pending > 0 {
